@@ -6,7 +6,7 @@ from harness import graphs as G
 from harness import strategies as S
 from harness.core import Acc, HarnessError, Violation, lib, must, must_raise
 from harness.hyp import job_seed, run_property, scaled
-from props.gcommon import compare_sets, pdag_codes, result_set, signed_copy, to_np
+from props.gcommon import DTYPE_NAMES, compare_sets, pdag_codes, result_set, signed_copy, spoil, to_np
 
 PROP = "C08"
 RULE = ("dag_to_cpdag on every DAG with p<=5 (29,281 DAGs / 8,782 classes; 0/1 int, float and signed-weight presentation), "
@@ -71,7 +71,7 @@ def check(case):
             if var == "weighted":
                 A = signed_copy(D, case.get("salt", 0))
             else:
-                A = to_np(D, float if var == "float" else int)
+                A = to_np(D, var)
             keep = A.copy()
             res = np.asarray(must(lib(utils.dag_to_cpdag, A), "dag_to_cpdag[%s]" % var))
             if res.shape != (p, p):
@@ -79,6 +79,7 @@ def check(case):
             if G.rows_from_matrix(res) != ug:
                 raise Violation("cpdag_wrong", "dag_to_cpdag[%s](%s) = %s, essential graph is %s"
                                 % (var, case["A"], res.astype(int).tolist(), G.lists_from_rows(ug)))
+            spoil(res)
             if not (A == keep).all():
                 raise Violation("input_modified", "dag_to_cpdag modified its argument")
             lab.append("var_" + var)
@@ -92,7 +93,7 @@ def check(case):
         P = G.rows_from_lists(case["P"])
         p = len(P)
         E = G.extensions_table(P) if p <= 5 else G.extensions_bruteforce(P)
-        A = to_np(P, float if case.get("dtype") == "float" else int)
+        A = to_np(P, case.get("dtype", "int"))
         keep = A.copy()
         o = lib(utils.pdag_to_cpdag, A)
         if not E:
@@ -104,6 +105,7 @@ def check(case):
         if G.rows_from_matrix(res) != ug:
             raise Violation("p2c_wrong", "pdag_to_cpdag(%s) = %s, essential graph of its extensions' class is %s"
                             % (case["P"], res.astype(int).tolist(), G.lists_from_rows(ug)))
+        spoil(res)
         if not (A == keep).all():
             raise Violation("input_modified", "pdag_to_cpdag modified its argument")
         return _cpdag_labels(any_member, members, ug) + ["has_extension"]
@@ -115,7 +117,7 @@ def _run_cpdag_exh(acc, job):
     for k, D in enumerate(dags):
         if k % job["nshards"] != job["shard"]:
             continue
-        case = {"sub": "cpdag_exh", "A": G.lists_from_rows(D), "variants": [["int"], ["float"], ["weighted"]][k % 3] + (["weighted"] if k % 7 == 0 else []),
+        case = {"sub": "cpdag_exh", "A": G.lists_from_rows(D), "variants": [["int"], ["float"], ["weighted"], ["uint8"], ["bool"], ["int32"], ["float32"]][k % 7] + (["weighted"] if k % 5 == 0 else []),
                 "salt": k, "alldags": job["p"] <= 4 or k % job.get("alldags_every", 50) == 0}
         try:
             lab = check(case)
@@ -130,7 +132,7 @@ def _run_p2c_exh(acc, job):
     for k, (code, P) in enumerate(pdag_codes(job["p"])):
         if k % job["nshards"] != job["shard"]:
             continue
-        case = {"sub": "p2c_exh", "P": G.lists_from_rows(P), "dtype": "float" if code % 2 else "int"}
+        case = {"sub": "p2c_exh", "P": G.lists_from_rows(P), "dtype": DTYPE_NAMES[code % 6]}
         try:
             lab = check(case)
             acc.record(case, lab, _nontrivial(case, lab), by_construction=True, sample=(code % 1499 == 3))
@@ -145,7 +147,7 @@ def _cpdag_case(draw):
     A = draw(S.dag_pattern(6, 9, shapes=("random", "sparse", "dense", "collider", "chain")))
     if draw(st.integers(0, 2)) == 0:
         A = draw(S.embedded(draw(S.dag_pattern(3, 6, shapes=("random", "dense", "collider", "complete")))))
-    return {"sub": "cpdag_hyp", "A": A, "variants": draw(st.sampled_from([["int"], ["float"], ["weighted"]])),
+    return {"sub": "cpdag_hyp", "A": A, "variants": draw(st.sampled_from([["int"], ["float"], ["weighted"], ["uint8"], ["bool"], ["float32"]])),
             "salt": draw(st.integers(0, 7))}
 
 
@@ -154,7 +156,7 @@ def _p2c_case(draw):
     P = draw(S.pdag(6, 7, max_undirected=8, weights=(4, 2, 2)))
     if draw(st.integers(0, 2)) == 0:
         P = draw(S.embedded(draw(S.pdag(3, 6, max_undirected=8, weights=(2, 3, 3)))))
-    return {"sub": "p2c_hyp", "P": P, "dtype": draw(st.sampled_from(["int", "float"]))}
+    return {"sub": "p2c_hyp", "P": P, "dtype": draw(st.sampled_from(DTYPE_NAMES))}
 
 
 def plan(tier, seed):
